@@ -5,6 +5,7 @@ CONSTANTS
   Vals = {0, 1}
   MaxDepth = 8
   Extra = {}
+  DB = FALSE
   Dev = "notransitive"
 VIEW MCView
 CONSTRAINT Depth
